@@ -2081,7 +2081,13 @@ def run(ctx):
     ck.rule('C04-D6', 'write_record is reached exactly once from end_request and end_response on every path, on the rewound '
                       'record of that exchange; WARC-Concurrent-To is the request record id; serialisation (WARCRecord.__iter__) '
                       'and write_record pass every block chunk on exactly once, unmodified')
+    ck.rule('C04-D7', 'the response record ends where the message ends: the reader that produces the reported bytes is chosen by the '
+                      'framing rules (chunked before Content-Length before read-until-close; the C08 framing-choice rule, shared): a '
+                      'chunked message read by Content-Length is archived cut off in the middle of its coding')
     _d1_d2(ctx)
     _d3(ctx)
     for f in (_d4_http, _d4_ftp, _d4_dispatchers, _d5, _d6, _d6_emission, _d6_position):
         f(ctx)
+    from .common import RemapCtx
+    from . import c08
+    c08.d1_framing(RemapCtx(ctx, {'C08-D1': 'C04-D7'}))
